@@ -19,7 +19,7 @@ def choose_ext(labels, rng, cap_cells, lists):
     return {l: 2 for l in labels}
 
 
-def mk(t, lists, ext, api='einsum', out=None):
+def mk(t, lists, ext, api='einsum', out=None, expr=()):
     ct = CTYPE[t]
     nops = len(lists)
     free = free_labels(lists)
@@ -27,15 +27,16 @@ def mk(t, lists, ext, api='einsum', out=None):
     od = [ext[l] for l in out_order]
     names = 'ab'[:nops]
     targs = ','.join(idx_cxx(L) for L in lists) + ((',O' + idx_cxx(out)) if out is not None else '')
-    call = '%s<%s>(%s)' % (api, targs, ','.join(names))
+    # operands flagged in expr are passed as expressions (x+0): the overloads for AbstractTensor evaluate them first
+    call = '%s<%s>(%s)' % (api, targs, ','.join(('(%s+0)' % n) if k in expr else n for k, n in enumerate(names)))
     params = ', '.join('const %s& %s' % (tensor_t(t, [ext[l] for l in L]), names[k]) for k, L in enumerate(lists))
     rt = tensor_t(t, od)
     wit = ('extern "C" void @W@(%s, %s& r){ static_assert(std::is_same<typename std::decay<decltype(%s)>::type, %s>::value, "result type: free indices in order of first appearance with operand extents"); r = %s; }'
            % (params, rt, call, rt, call))
     regions = [treg(names[k], t, [ext[l] for l in L]) for k, L in enumerate(lists)] + [treg('r', t, od, 'out'), rreg('rref', t, prod(od))]
     stages = [{'mod': 'wit', 'fn': '@W@', 'args': list(names) + ['r']}, {'mod': 'ref', 'fn': '@R@', 'args': list(names) + ['rref']}]
-    tag = '_'.join(''.join(map(str, L)) for L in lists) + ('_o' + ''.join(map(str, out)) if out is not None else '')
-    return Witness('%s_%s_%s_%s' % (api, t, tag, 'x'.join(str(ext[l]) for l in sorted(ext))), 'einsum.%s.%dop' % (api, nops) + ('.explicit' if out is not None else ''),
+    tag = '_'.join(''.join(map(str, L)) for L in lists) + ('_o' + ''.join(map(str, out)) if out is not None else '') + ('_e' + ''.join(map(str, expr)) if expr else '')
+    return Witness('%s_%s_%s_%s' % (api, t, tag, 'x'.join(str(ext[l]) for l in sorted(ext))), 'einsum.%s.%dop' % (api, nops) + ('.explicit' if out is not None else '') + ('.expr' if expr else ''),
                    {'type': t, 'lists': [list(L) for L in lists], 'ext': {str(k): v for k, v in ext.items()}, 'api': api, 'out': list(out) if out is not None else None, 'free': len(free)},
                    wit, ref_einsum(ct, lists, ext, out_order, nops), regions, stages, [{'kind': 'equal', 'a': 'r', 'b': 'rref', 'cells': prod(od), 'mode': 'ALG'}])
 
@@ -78,6 +79,10 @@ def witnesses(tier, seed, std='gnu++17'):
                 rng.shuffle(o)
                 if std != 'gnu++14':   # the explicit-output form is provided for C++17 and later only (einsum_explicit.h)
                     W.append(mk(t, [list(L0), list(L1)], ext, out=o))
+                    if k % 9 == 0:
+                        W.append(mk(t, [list(L0), list(L1)], ext, out=o, expr=[(0,), (1,), (0, 1)][(k // 9) % 3]))
+            if k % 5 == 0:    # expression operands (abstract_contraction.h)
+                W.append(mk(t, [list(L0), list(L1)], ext, expr=[(0,), (1,), (0, 1)][(k // 5) % 3]))
     # wide extents: each index in turn gets an extent that is 1x, 2x, 3x, 5x, 7x the vector width of some ISA (and +-1 of it), the
     # others stay small — the vectorised loops of the contraction kernels step by the vector width over one index of one operand
     WIDE = {'f32': [12, 16, 20, 24, 28, 33, 48], 'f64': [6, 10, 12, 14, 17, 24, 40], 'i32': [12, 20, 24, 28, 48], 'i64': [6, 10, 12, 24]}
@@ -105,6 +110,11 @@ def witnesses(tier, seed, std='gnu++17'):
             ext = choose_ext(sorted(set(p)), rng, 500, [p])
             for t in (T3 if not quick else [T3[r % 3]]):
                 W.append(mk(t, [list(p)], ext))
+            fr = free_labels([p])
+            if len(fr) >= 2 and std != 'gnu++14':     # single-tensor form with an explicit output order, tensor and expression operand
+                W.append(mk(T3[r % 3], [list(p)], ext, out=fr[::-1]))
+                W.append(mk(T3[(r + 1) % 3], [list(p)], ext, out=fr[::-1], expr=(0,)))
+            W.append(mk(T3[(r + 2) % 3], [list(p)], ext, expr=(0,)))
     # inner and outer products
     for dims in ([3], [8], [9], [2, 3], [4, 5], [2, 3, 4]):
         for t in T3:
